@@ -51,6 +51,13 @@ theorem C01_accounting (inp : Input) (out : Out) (h : distribute inp = some out)
 theorem C01_multi_inverter_split (s : Slot) : (splitGroup s).total + (splitGroup s).residual = s.p :=
   DistLemmas.splitGroup_sum s
 
+/-- The model bounds the `while` loop of the deficit covering by `number of entries + 1` iterations; the bound
+is never reached (every iteration but the last zeroes one live excess), so the model loop is the unbounded
+Python loop. -/
+theorem C01_cover_loop_fuel (es : List Entry) (d : Rat) (a : Bool) (m : Nat) :
+    coverLoop (es.length + 1 + m) es d a = coverLoop (es.length + 1) es d a :=
+  DistLemmas.coverLoop_fuel es d a m
+
 /-! ### the regimes where the clauses hold -/
 
 /-- Conservation outside the regimes `adjust` and `split_infeasible` — for every input, consistent or not. -/
